@@ -133,6 +133,27 @@ def _scaled_followups(fx, np, x):
         else:
             y.set_val(float(v0))
         return y
+    def _reject(y):
+        # calls that are REJECTED with an error (index out of range, not a number, a bit string longer than the word, a container
+        # holding None): the object must be what it was
+        n = int(np.size(y.val))
+        v0 = float(np.asarray(y.get_val(), dtype=float).ravel()[0])     # (a value the object holds: a rejected indexed write of an
+        #                                                                  out-of-range value raises the flag before it fails)
+        # (the input that fails INSIDE the affine transformation comes last: a later call that gets that far would heal the object)
+        for bad in (lambda: y.__setitem__(n + 3, v0), lambda: y.set_val(v0, index=n + 3), lambda: y.set_val({'a': 1}),
+                    lambda: y('0b' + '1' * (int(y.n_word) + 3)), lambda: y('no number'), lambda: y.set_val([1.0, None])):
+            try:
+                bad()
+            except Exception:
+                pass
+
+    def rejected():
+        y = x.deepcopy(); y.reset(); _reject(y); return y
+
+    def rejected_resize():
+        y = x.deepcopy(); y.reset(); _reject(y); y.resize(bool(x.signed), int(x.n_word) + 2, int(x.n_frac) + 2); return y
+    attempt('rejected', rejected)
+    attempt('rejected+resize', rejected_resize)
     attempt('resize-widen', resize_widen)
     attempt('setitem-same', setitem_same)
     attempt('raw-store', raw_store)
